@@ -105,13 +105,10 @@ func (consumer *Consumer) retrieveAndSendMessage() {
 	}
 
 	// handle metrics
-	if consumer.noAck {
-		consumer.queue.GetMetrics().Total.Counter.Dec(1)
-		consumer.queue.GetMetrics().ServerTotal.Counter.Dec(1)
-	} else {
-		consumer.queue.GetMetrics().Unacked.Counter.Inc(1)
-		consumer.queue.GetMetrics().ServerUnacked.Counter.Inc(1)
-	}
+	// a no-ack delivery was settled by AckMsg above, which already took it out of
+	// total and unacked: count it as unacked here so that both stay balanced
+	consumer.queue.GetMetrics().Unacked.Counter.Inc(1)
+	consumer.queue.GetMetrics().ServerUnacked.Counter.Inc(1)
 
 	consumer.queue.GetMetrics().Ready.Counter.Dec(1)
 	consumer.queue.GetMetrics().ServerReady.Counter.Dec(1)
